@@ -23,6 +23,8 @@ import (
 	"google.golang.org/grpc/metadata"
 	"google.golang.org/grpc/peer"
 	"google.golang.org/grpc/status"
+	"google.golang.org/protobuf/proto"
+	"google.golang.org/protobuf/types/known/emptypb"
 	"google.golang.org/protobuf/types/known/wrapperspb"
 
 	"github.com/jhump/grpctunnel"
@@ -105,6 +107,9 @@ type RPCSpec struct {
 	Creds         map[string]string `json:"creds,omitempty"`
 	Creds2        map[string]string `json:"creds2,omitempty"` // a second PerRPCCredentials option
 	NoOutgoingMD  bool              `json:"no_out_md,omitempty"`
+	// Relay: both ends receive into a message type that declares none of the fields and keep the
+	// content as unknown fields (schema-agnostic relay); not for Invoke.
+	Relay bool `json:"relay,omitempty"`
 	// FailCreds: "error" or "tls" - per-RPC credentials that make the RPC fail at its start.
 	FailCreds string `json:"fail_creds,omitempty"`
 	// NeverCancel: the RPC is issued with a context that can never be cancelled
@@ -486,6 +491,13 @@ func (s *svcImpl) runHandler(spec *RPCSpec, tag string, hio *handlerIO) error {
 	return s.runHandlerOps(spec, "h:"+tag, spec.Handler, hio)
 }
 
+func handlerRecv(spec *RPCSpec, hio *handlerIO, in *wrapperspb.BytesValue) error {
+	if spec.Relay {
+		return relayRecv(hio.recv, in)
+	}
+	return hio.recv(in)
+}
+
 func (s *svcImpl) runHandlerOps(spec *RPCSpec, actor string, ops []Op, hio *handlerIO) (ret error) {
 	env := s.env
 	log := env.Log
@@ -498,7 +510,7 @@ func (s *svcImpl) runHandlerOps(spec *RPCSpec, actor string, ops []Op, hio *hand
 		switch op.K {
 		case "recv":
 			log.call(rec)
-			err := hio.recv(&in)
+			err := handlerRecv(spec, hio, &in)
 			if err == nil {
 				checkPayload(rec, spec.ID, dirReq, int(spec.hdlRecvd.Add(1))-1, in.Value)
 			}
@@ -507,7 +519,7 @@ func (s *svcImpl) runHandlerOps(spec *RPCSpec, actor string, ops []Op, hio *hand
 			for {
 				r := &OpRec{Actor: actor, RPC: spec.ID, Side: "handler", K: "recv", Idx: i}
 				log.call(r)
-				err := hio.recv(&in)
+				err := handlerRecv(spec, hio, &in)
 				if err == nil {
 					checkPayload(r, spec.ID, dirReq, int(spec.hdlRecvd.Add(1))-1, in.Value)
 				}
@@ -957,9 +969,30 @@ func (e *Env) captureOpts(rec *OpRec, spec *RPCSpec) {
 	}
 }
 
+// relayRecv receives like a schema-agnostic relay or recorder does: into a message type that
+// declares none of the fields (emptypb.Empty), keeping what it got as unknown fields. Re-marshalled,
+// that must be exactly what was sent; the payload is then extracted for the delivery oracle.
+func relayRecv(recv func(m any) error, in *wrapperspb.BytesValue) error {
+	var e emptypb.Empty
+	if err := recv(&e); err != nil {
+		return err
+	}
+	b, err := proto.Marshal(&e)
+	if err != nil {
+		return err
+	}
+	in.Reset()
+	return proto.Unmarshal(b, in)
+}
+
 func (e *Env) clientRecv(spec *RPCSpec, rec *OpRec, in *wrapperspb.BytesValue) error {
 	e.Log.call(rec)
-	err := spec.stream.RecvMsg(in)
+	var err error
+	if spec.Relay {
+		err = relayRecv(func(m any) error { return spec.stream.RecvMsg(m) }, in)
+	} else {
+		err = spec.stream.RecvMsg(in)
+	}
 	if err == nil {
 		checkPayload(rec, spec.ID, dirResp, int(spec.cliRecvd.Add(1))-1, in.Value)
 	} else {
